@@ -23,9 +23,9 @@
      QuantifierPrefix:: `*` | `+` | `?` | `{` DecimalDigits `}` | `{` DecimalDigits `,}` | `{` DecimalDigits `,` DecimalDigits `}`
         early error:    `{` DecimalDigits `,` DecimalDigits `}` with MV of the first DecimalDigits larger than the MV of the second
      DecimalDigits   :: DecimalDigit | DecimalDigits DecimalDigit          (with its MV, an unbounded natural number)
-     Atom[U]         :: PatternCharacter | `.` | `\` AtomEscape[?U] | `(` Disjunction[?U] `)` | `(?:` Disjunction[?U] `)`
+     Atom[U]         :: PatternCharacter | `.` | `\` AtomEscape[?U] | CharacterClass[?U] | `(` Disjunction[?U] `)` | `(?:` Disjunction[?U] `)`
                         (GroupSpecifier is [empty]: no named groups in the fragment)
-     ExtendedAtom    :: `.` | `\` AtomEscape[~U] | `(` Disjunction[~U] `)` | `(?:` Disjunction[~U] `)`
+     ExtendedAtom    :: `.` | `\` AtomEscape[~U] | CharacterClass[~U] | `(` Disjunction[~U] `)` | `(?:` Disjunction[~U] `)`
                       | InvalidBracedQuantifier | ExtendedPatternCharacter
      InvalidBracedQuantifier :: `{` DecimalDigits `}` | `{` DecimalDigits `,}` | `{` DecimalDigits `,` DecimalDigits `}`
         early error (B.1.4.1): any source text matched by ExtendedAtom :: InvalidBracedQuantifier.  Hence the production has
@@ -67,7 +67,25 @@
      SyntaxCharacter :: one of ^ $ \ . * + ? ( ) [ ] { } |
      PatternCharacter:: SourceCharacter but not SyntaxCharacter
      ExtendedPatternCharacter :: SourceCharacter but not one of ^ $ \ . * + ? ( ) [ |
-   Early errors of the fragment: the three above (bounds out of order; InvalidBracedQuantifier; DecimalEscape beyond the
+     CharacterClass[U] :: `[` [lookahead is not `^`] ClassRanges[?U] `]` | `[^` ClassRanges[?U] `]`
+     ClassRanges[U]  :: [empty] | NonemptyClassRanges[?U]
+     NonemptyClassRanges[U] :: ClassAtom | ClassAtom NonemptyClassRangesNoDash | ClassAtom `-` ClassAtom ClassRanges
+     NonemptyClassRangesNoDash[U] :: ClassAtom | ClassAtomNoDash NonemptyClassRangesNoDash | ClassAtomNoDash `-` ClassAtom ClassRanges
+        early errors of the two range productions (range_ok): an endpoint with IsCharacterClass true (Annex B: only with u);
+        CharacterValue of the first endpoint larger than that of the second
+     ClassAtom[U]    :: `-` | ClassAtomNoDash[?U]
+     ClassAtomNoDash[U] :: SourceCharacter but not one of `\` `]` `-` | `\` ClassEscape[?U]
+        Annex B [~U]:   | `\` [lookahead = c]     (the backslash alone, where `\` ClassEscape does not match: CAN_backslash_c)
+     ClassEscape[U]  :: `b` | [+U] `-` | CharacterClassEscape | CharacterEscape[?U]        (no DecimalEscape in a class)
+        Annex B [~U]:   | `c` ClassControlLetter,  ClassControlLetter :: DecimalDigit | `_`
+        ordered choice: `b` and the CharacterClassEscapes are not read as IdentityEscapes (side condition of CLE_character)
+     CharacterValue (the last index of CharacterEscape / RegExpUnicodeEscapeSequence / LegacyOctalEscapeSequence; Some v in
+        ClassEscape / ClassAtom, None where IsCharacterClass is true): ControlEscape t n v f r = 9 10 11 12 13; c ControlLetter
+        and c ClassControlLetter = the unit modulo 32; `0` = 0; HexEscapeSequence, Hex4Digits, CodePoint = their MV; a surrogate
+        pair = (lead - 0xD800) * 0x400 + (trail - 0xDC00) + 0x10000; LegacyOctalEscapeSequence = its MV; IdentityEscape and a
+        SourceCharacter = the unit; `b` = 8; `-` = 0x2D; the backslash before c = 0x5C
+        Annex B ordered choice adds to CE_identity: not a ControlEscape unit (same text, other CharacterValue)
+   Early errors of the fragment: the ones above of ranges in classes, and the three above (bounds out of order; InvalidBracedQuantifier; DecimalEscape beyond the
    number of groups); the CodePoint bound is part of the production.  Not stated: "NcapturingParens >= 2^32 - 1" (Pattern). *)
 From Coq Require Import List NArith Bool.
 Import ListNotations.
@@ -124,13 +142,14 @@ Definition trail_surrogate (v : N) : bool := (56320 <=? v) && (v <=? 57343).    
 (* the units r begin with `\u` HexTrailSurrogate *)
 Definition trail_escape_follows (r : list N) : Prop :=
   exists ts w r', Hex4Digits ts w /\ trail_surrogate w = true /\ r = g_backslash :: 117 :: ts ++ r'.
-Inductive RegExpUnicodeEscapeSequence (u : bool) : list N -> list N -> Prop :=
+(* with its CharacterValue *)
+Inductive RegExpUnicodeEscapeSequence (u : bool) : list N -> list N -> N -> Prop :=
 | UE_pair hs v ts w r : u = true -> Hex4Digits hs v -> lead_surrogate v = true -> Hex4Digits ts w -> trail_surrogate w = true ->
-    RegExpUnicodeEscapeSequence u (117 :: hs ++ g_backslash :: 117 :: ts) r
+    RegExpUnicodeEscapeSequence u (117 :: hs ++ g_backslash :: 117 :: ts) r ((v - 55296) * 1024 + (w - 56320) + 65536)
 | UE_hex4 hs v r : Hex4Digits hs v -> (u = true -> lead_surrogate v = true -> ~ trail_escape_follows r) ->
-    RegExpUnicodeEscapeSequence u (117 :: hs) r
+    RegExpUnicodeEscapeSequence u (117 :: hs) r v
 | UE_code_point ds v r : u = true -> HexDigits ds v -> v <= 1114111 ->
-    RegExpUnicodeEscapeSequence u (117 :: g_lbrace :: ds ++ [g_rbrace]) r.
+    RegExpUnicodeEscapeSequence u (117 :: g_lbrace :: ds ++ [g_rbrace]) r v.
 
 (* DecimalEscape with its CapturingGroupNumber *)
 Definition non_zero_digit (c : N) : bool := (49 <=? c) && (c <=? 57).
@@ -145,12 +164,15 @@ Definition octal_digit (c : N) : bool := (48 <=? c) && (c <=? 55).
 Definition no_octal_follows (r : list N) : Prop := match r with d :: _ => octal_digit d = false | [] => True end.
 Definition zero_to_three (c : N) : bool := (48 <=? c) && (c <=? 51).
 Definition four_to_seven (c : N) : bool := (52 <=? c) && (c <=? 55).
-Inductive LegacyOctalEscapeSequence : list N -> list N -> Prop :=
-| LO_zero d r : (d = 56 \/ d = 57) -> LegacyOctalEscapeSequence [48] (d :: r)
-| LO_one a r : octal_digit a = true -> a <> 48 -> no_octal_follows r -> LegacyOctalEscapeSequence [a] r
-| LO_two_low a b r : zero_to_three a = true -> octal_digit b = true -> no_octal_follows r -> LegacyOctalEscapeSequence [a; b] r
-| LO_two_high a b r : four_to_seven a = true -> octal_digit b = true -> LegacyOctalEscapeSequence [a; b] r
-| LO_three a b c r : zero_to_three a = true -> octal_digit b = true -> octal_digit c = true -> LegacyOctalEscapeSequence [a; b; c] r.
+(* with its MV *)
+Inductive LegacyOctalEscapeSequence : list N -> list N -> N -> Prop :=
+| LO_zero d r : (d = 56 \/ d = 57) -> LegacyOctalEscapeSequence [48] (d :: r) 0
+| LO_one a r : octal_digit a = true -> a <> 48 -> no_octal_follows r -> LegacyOctalEscapeSequence [a] r (a - 48)
+| LO_two_low a b r : zero_to_three a = true -> octal_digit b = true -> no_octal_follows r ->
+    LegacyOctalEscapeSequence [a; b] r (8 * (a - 48) + (b - 48))
+| LO_two_high a b r : four_to_seven a = true -> octal_digit b = true -> LegacyOctalEscapeSequence [a; b] r (8 * (a - 48) + (b - 48))
+| LO_three a b c r : zero_to_three a = true -> octal_digit b = true -> octal_digit c = true ->
+    LegacyOctalEscapeSequence [a; b; c] r (64 * (a - 48) + 8 * (b - 48) + (c - 48)).
 
 (* Annex B ordered choice: an alternative of CharacterEscape before IdentityEscape matches at the unit c followed by r,
    and matches a different text than the unit c alone *)
@@ -158,20 +180,75 @@ Definition earlier_escape_matches (c : N) (r : list N) : Prop :=
   octal_digit c = true \/
   (c = 120 /\ exists h1 h2 r', hex_digit h1 = true /\ hex_digit h2 = true /\ r = h1 :: h2 :: r') \/
   (c = 117 /\ exists hs v r', Hex4Digits hs v /\ r = hs ++ r').
-Inductive CharacterEscape (u : bool) (np : N) : list N -> list N -> Prop :=
-| CE_control c r : control_escape c = true -> CharacterEscape u np [c] r
-| CE_letter c r : control_letter c = true -> CharacterEscape u np [99; c] r
-| CE_zero r : no_digit_follows r -> CharacterEscape u np [48] r
-| CE_hex h1 h2 r : hex_digit h1 = true -> hex_digit h2 = true -> CharacterEscape u np [120; h1; h2] r
-| CE_unicode w r : RegExpUnicodeEscapeSequence u w r -> CharacterEscape u np w r
-| CE_legacy_octal w r : u = false -> LegacyOctalEscapeSequence w r -> ~ decimal_escape_matches np (w ++ r) ->
-    CharacterEscape u np w r
+(* CharacterEscape with its CharacterValue.  onp = Some NcapturingParens where DecimalEscape is an earlier alternative
+   (AtomEscape), None inside a class (ClassEscape has no DecimalEscape) *)
+Definition control_escape_value (c : N) : N :=
+  if c =? 116 then 9 else if c =? 110 then 10 else if c =? 118 then 11 else if c =? 102 then 12 else 13.   (* t n v f r *)
+Definition decimal_escape_earlier (onp : option N) (l : list N) : Prop :=
+  match onp with Some np => decimal_escape_matches np l | None => False end.
+Inductive CharacterEscape (u : bool) (onp : option N) : list N -> list N -> N -> Prop :=
+| CE_control c r : control_escape c = true -> CharacterEscape u onp [c] r (control_escape_value c)
+| CE_letter c r : control_letter c = true -> CharacterEscape u onp [99; c] r (c mod 32)
+| CE_zero r : no_digit_follows r -> CharacterEscape u onp [48] r 0
+| CE_hex h1 h2 r : hex_digit h1 = true -> hex_digit h2 = true ->
+    CharacterEscape u onp [120; h1; h2] r (16 * hex_digit_value h1 + hex_digit_value h2)
+| CE_unicode w r v : RegExpUnicodeEscapeSequence u w r v -> CharacterEscape u onp w r v
+| CE_legacy_octal w r v : u = false -> LegacyOctalEscapeSequence w r v -> ~ decimal_escape_earlier onp (w ++ r) ->
+    CharacterEscape u onp w r v
 | CE_identity c r : identity_escape u c = true ->
-    (u = false -> ~ earlier_escape_matches c r /\ ~ decimal_escape_matches np (c :: r)) -> CharacterEscape u np [c] r.
+    (u = false -> control_escape c = false /\ ~ earlier_escape_matches c r /\ ~ decimal_escape_earlier onp (c :: r)) ->
+    CharacterEscape u onp [c] r c.
 Inductive AtomEscape (u : bool) (np : N) : list N -> list N -> Prop :=
 | AE_decimal ds v r : DecimalEscape ds v r -> v <= np -> AtomEscape u np ds r
 | AE_class c r : character_class_escape c = true -> AtomEscape u np [c] r
-| AE_character w r : CharacterEscape u np w r -> AtomEscape u np w r.
+| AE_character w r v : CharacterEscape u (Some np) w r v -> AtomEscape u np w r.
+
+(* ---- character classes ----
+   The value index of ClassEscape / ClassAtom: Some (CharacterValue), or None where IsCharacterClass is true *)
+Definition class_control_letter (c : N) : bool := decimal_digit c || (c =? 95).        (* DecimalDigit or _ *)
+Inductive ClassEscape (u : bool) : list N -> list N -> option N -> Prop :=
+| CLE_b r : ClassEscape u [98] r (Some 8)
+| CLE_dash r : u = true -> ClassEscape u [45] r (Some 45)
+| CLE_control_letter c r : u = false -> class_control_letter c = true -> ClassEscape u [99; c] r (Some (c mod 32))   (* Annex B *)
+| CLE_class c r : character_class_escape c = true -> ClassEscape u [c] r None
+| CLE_character w r v : CharacterEscape u None w r v ->
+    (* Annex B ordered choice (and the same units with u): `b` and the CharacterClassEscapes are matched by the earlier alternatives *)
+    (forall c, w = [c] -> c <> 98 /\ character_class_escape c = false) -> ClassEscape u w r (Some v).
+Inductive ClassAtomNoDash (u : bool) : list N -> list N -> option N -> Prop :=
+| CAN_char c r : c <> g_backslash -> c <> g_rbracket -> c <> 45 -> ClassAtomNoDash u [c] r (Some c)
+| CAN_escape w r v : ClassEscape u w r v -> ClassAtomNoDash u (g_backslash :: w) r v
+| CAN_backslash_c r : u = false ->    (* Annex B: `\` [lookahead = c], tried after `\` ClassEscape *)
+    match r with c :: _ => class_control_letter c = false /\ control_letter c = false | [] => True end ->
+    ClassAtomNoDash u [g_backslash] (99 :: r) (Some g_backslash).
+Inductive ClassAtom (u : bool) : list N -> list N -> option N -> Prop :=
+| CA_dash r : ClassAtom u [45] r (Some 45)
+| CA_no_dash w r v : ClassAtomNoDash u w r v -> ClassAtom u w r v.
+(* the early errors of the two range productions: with u an endpoint that is a class is an error, without u (Annex B) it
+   is not; two character endpoints must be in order *)
+Definition range_ok (u : bool) (a b : option N) : Prop :=
+  match a, b with Some x, Some y => x <= y | _, _ => u = false end.
+Inductive ClassRanges (u : bool) : list N -> list N -> Prop :=
+| CR_empty r : ClassRanges u [] r
+| CR_nonempty w r : NonemptyClassRanges u w r -> ClassRanges u w r
+with NonemptyClassRanges (u : bool) : list N -> list N -> Prop :=
+| NCR_atom a r v : ClassAtom u a r v -> NonemptyClassRanges u a r
+| NCR_atom_more a b r v : ClassAtom u a (b ++ r) v -> NonemptyClassRangesNoDash u b r -> NonemptyClassRanges u (a ++ b) r
+| NCR_range a b c r va vb : ClassAtom u a (45 :: b ++ c ++ r) va -> ClassAtom u b (c ++ r) vb -> ClassRanges u c r ->
+    range_ok u va vb -> NonemptyClassRanges u (a ++ 45 :: b ++ c) r
+with NonemptyClassRangesNoDash (u : bool) : list N -> list N -> Prop :=
+| NCRN_atom a r v : ClassAtom u a r v -> NonemptyClassRangesNoDash u a r
+| NCRN_atom_more a b r v : ClassAtomNoDash u a (b ++ r) v -> NonemptyClassRangesNoDash u b r ->
+    NonemptyClassRangesNoDash u (a ++ b) r
+| NCRN_range a b c r va vb : ClassAtomNoDash u a (45 :: b ++ c ++ r) va -> ClassAtom u b (c ++ r) vb -> ClassRanges u c r ->
+    range_ok u va vb -> NonemptyClassRangesNoDash u (a ++ 45 :: b ++ c) r.
+Inductive CharacterClass (u : bool) : list N -> list N -> Prop :=
+| CC_positive w r : match w with c :: _ => c <> g_caret | [] => True end (* [lookahead is not ^] *) ->
+    ClassRanges u w (g_rbracket :: r) -> CharacterClass u (g_lbracket :: w ++ [g_rbracket]) r
+| CC_negative w r : ClassRanges u w (g_rbracket :: r) -> CharacterClass u (g_lbracket :: g_caret :: w ++ [g_rbracket]) r.
+Scheme ClassRanges_mind := Minimality for ClassRanges Sort Prop
+  with NonemptyClassRanges_mind := Minimality for NonemptyClassRanges Sort Prop
+  with NonemptyClassRangesNoDash_mind := Minimality for NonemptyClassRangesNoDash Sort Prop.
+Combined Scheme class_ranges_mutind from ClassRanges_mind, NonemptyClassRanges_mind, NonemptyClassRangesNoDash_mind.
 
 Inductive QuantifierPrefix : list N -> Prop :=
 | QP_star : QuantifierPrefix [g_star]
@@ -219,6 +296,7 @@ with Atom (u : bool) (np : N) : list N -> list N -> N -> Prop :=
 | At_escape w r : AtomEscape u np w r -> (forall c, w = [c] -> assertion_escape c = false) -> Atom u np (g_backslash :: w) r 0
 | At_backslash_c r : u = false ->     (* Annex B: `\` [lookahead = c], tried after `\` AtomEscape (`c` ControlLetter) *)
     match r with c :: _ => control_letter c = false | [] => True end -> Atom u np [g_backslash] (99 :: r) 0
+| At_class w r : CharacterClass u w r -> Atom u np w r 0
 | At_group d r k : Disjunction u np d (g_rparen :: r) k -> Atom u np (g_lparen :: d ++ [g_rparen]) r (1 + k)
 | At_noncapturing d r k : Disjunction u np d (g_rparen :: r) k ->
     Atom u np (g_lparen :: g_question :: g_colon :: d ++ [g_rparen]) r k.
